@@ -117,6 +117,12 @@ def compare_arrays(ctx, M, R, n_input, tag, input_canons=None, rooted=None):
         rt, problems = snapshot(t)
         ctx.check(not problems, "restored_tree_well_formed", "C06.restore_wellformed", lambda: d(repr(problems)))
         got.append(key_of(rt, rooted))
+    got_r = []
+    for i in range(n_input):
+        rt, problems = snapshot(R.restore_tree(i))
+        got_r.append(key_of(rt, rooted))
+    ctx.check(sorted(got) == sorted(got_r), "restore_tree_same_as_serial_collection", "C06.restore_differential",
+              lambda: d("%r vs %r" % (sorted(got), sorted(got_r))))
     if input_canons is not None:
         ctx.check(sorted(got) == sorted(input_canons), "restore_tree_topologies_multiset", "C06.restore_topologies",
                   lambda: d("%r vs %r" % (sorted(got), sorted(input_canons))))
@@ -146,7 +152,10 @@ def algebra_cases(draw, max_taxa, max_trees):
             "order": list(draw(st.permutations(list(range(P))))),
             "ops": [draw(st.sampled_from(OPS)) for _ in range(P)], "nest": draw(st.booleans()),
             "explicit": draw(st.booleans()), "use_w": draw(st.booleans()), "master_first": draw(st.booleans()),
-            "prequery": draw(st.booleans()), "from_empty": draw(st.booleans())}
+            "prequery": draw(st.booleans()), "from_empty": draw(st.booleans()),
+            # some samples mix trees over different leaf sets of the one namespace (taxa dropped per tree)
+            "drop": ([sorted(draw(st.sets(st.integers(0, s["n"] - 1), max_size=max(0, min(2, s["n"] - 4))))) for _ in range(k)]
+                     if draw(st.integers(0, 3)) == 0 else None)}
 
 
 def newick_of(rt, rooted_flag):
@@ -160,6 +169,16 @@ def check_algebra(ctx, case):
     rooted_flag = sample["rooted"]
     rooted = bool(rooted_flag)
     rts = samples.realise(sample)
+    if case.get("drop"):
+        for i, dr in enumerate(case["drop"]):
+            if dr:
+                keep = rts[i].leafset() - frozenset("T%d" % j for j in dr)
+                w = rts[i].weight
+                rts[i] = rts[i].restrict(keep, suppress=True)
+                rts[i].length[rts[i].root] = None
+                rts[i].weight = w
+        if any(case["drop"]):
+            ctx.cls("A:trees_over_different_leaf_sets")
     ns, taxa, bits = shapes.build_namespace(shapes.plain_history(sample["n"]))
     explicit = case["explicit"]
     kw = dict(taxon_namespace=ns, use_tree_weights=case["use_w"], is_rooted_trees=rooted_flag if explicit else None)
@@ -245,12 +264,17 @@ def check_algebra(ctx, case):
         ctx.cls("A:empty_part_after_nonempty")
     if 0 in sizes:
         ctx.cls("A:has_empty_part")
-    compare_arrays(ctx, acc, R, len(rts), tag, [key_of(rt, rooted) for rt in rts], rooted)
+    # (restore_tree re-creates a tree over the whole namespace: the absolute clause "restored topologies are the input
+    # topologies" is asserted for samples over the full leaf set; mixed-leaf-set samples are compared with the serially
+    # built collection only)
+    hetero = bool(case.get("drop")) and any(case["drop"])
+    canons = None if hetero else [key_of(rt, rooted) for rt in rts]
+    compare_arrays(ctx, acc, R, len(rts), tag, canons, rooted)
     if from_empty:
         acc2 = dendropy.TreeArray(**kw)
         for nxt in reversed(order[1:]):
             acc2 = merge(acc2, nxt, "update")
-        compare_arrays(ctx, acc2, R, len(rts), lambda: "SECOND merge of the same parts in reversed order; " + tag(), [key_of(rt, rooted) for rt in rts], rooted)
+        compare_arrays(ctx, acc2, R, len(rts), lambda: "SECOND merge of the same parts in reversed order; " + tag(), canons, rooted)
         # and the first accumulator is not disturbed by the second round either
         compare_arrays(ctx, acc, R, len(rts), lambda: "first accumulator re-checked after the second merge; " + tag(), None, rooted)
     if empties_after_nonempty or (len(nonorig) >= 2 and nonorig != sorted(nonorig)):
@@ -360,7 +384,7 @@ class Scheduler(object):
         return multiprocessing.Process
 
 
-def run_parallel(ctx, tp, files, ns, nworkers, assignment, arrival, giveup=()):
+def run_parallel(ctx, tp, files, ns, nworkers, assignment, arrival, giveup=(), tree_offset=0):
     from dendropy.application import sumtrees
     sched = Scheduler(assignment, arrival, giveup)
     for name in ("TreeAnalysisWorker", "TreeProcessor", "multiprocessing"):
@@ -372,7 +396,7 @@ def run_parallel(ctx, tp, files, ns, nworkers, assignment, arrival, giveup=()):
     sumtrees.TreeAnalysisWorker.terminate = lambda self: None
     try:
         tp.num_processes = nworkers
-        return tp.parallel_analyze_trees(tree_sources=files, schema="newick", taxon_namespace=ns)
+        return tp.parallel_analyze_trees(tree_sources=files, schema="newick", taxon_namespace=ns, tree_offset=tree_offset)
     finally:
         sumtrees.multiprocessing, sumtrees.TreeAnalysisWorker.start, sumtrees.TreeAnalysisWorker.terminate = saved
 
@@ -389,7 +413,9 @@ def sched_cases(draw, max_files, max_workers_extra):
     W = draw(st.integers(1, F + max_workers_extra))
     return {"sample": s, "cuts": cuts, "W": W, "assignment": [draw(st.integers(0, W - 1)) for _ in range(F)],
             "arrival": list(draw(st.permutations(list(range(W))))), "mode": draw(st.sampled_from(MODES)),
-            "rooted_tokens": draw(st.booleans()), "giveup": sorted(draw(st.sets(st.integers(0, W - 1), max_size=W)))}
+            "rooted_tokens": draw(st.booleans()), "giveup": sorted(draw(st.sets(st.integers(0, W - 1), max_size=W))),
+            # burn-in: the first `burnin` trees of EVERY file are skipped, however the files are distributed
+            "burnin": draw(st.sampled_from([0, 0, 1, 2]))}
 
 
 def check_schedule(ctx, case):
@@ -425,12 +451,19 @@ def check_schedule(ctx, case):
                                             use_tree_weights=True, ultrametricity_precision=1e-5, taxon_label_age_map=None,
                                             num_processes=1, log_frequency=0, messenger=None, debug_mode=True)
         ns1 = dendropy.TaxonNamespace(labels)
-        R = mk().serial_analyze_trees(tree_sources=files, schema="newick", taxon_namespace=ns1)
+        burnin = case.get("burnin", 0)
+        kept = [i for idxs in groups for i in idxs[burnin:]]
+        if not kept:
+            burnin = 0
+            kept = list(range(len(rts)))
+        if burnin:
+            ctx.cls("B:burnin=%d" % burnin)
+        R = mk().serial_analyze_trees(tree_sources=files, schema="newick", taxon_namespace=ns1, tree_offset=burnin)
         ns2 = dendropy.TaxonNamespace(labels)
-        tag = lambda: "mode=%s tokens_rooted=%r files=%r workers=%d assignment=%r arrival=%r early_empty_poll=%r trees=%s" % (
+        tag = lambda: "burnin=%d " % burnin + "mode=%s tokens_rooted=%r files=%r workers=%d assignment=%r arrival=%r early_empty_poll=%r trees=%s" % (
             mode, token_rooted, groups, W, case["assignment"], case["arrival"], case.get("giveup", []), [rt.canon() for rt in rts])
         try:
-            M = run_parallel(ctx, mk(), files, ns2, W, case["assignment"], case["arrival"], case.get("giveup", ()))
+            M = run_parallel(ctx, mk(), files, ns2, W, case["assignment"], case["arrival"], case.get("giveup", ()), tree_offset=burnin)
         except runner.HarnessError:
             raise
         except Exception as e:
@@ -440,7 +473,7 @@ def check_schedule(ctx, case):
                 raise runner.KnownSkip()
             raise
         eff_rooted = bool(is_src_rooted) if is_src_rooted is not None else bool(flag)
-        compare_arrays(ctx, M, R, len(rts), tag, [key_of(rt, eff_rooted) for rt in rts], eff_rooted)
+        compare_arrays(ctx, M, R, len(kept), tag, [key_of(rts[i], eff_rooted) for i in kept], eff_rooted)
     finally:
         shutil.rmtree(tmp, ignore_errors=True)
     busy = set(case["assignment"])
